@@ -474,6 +474,12 @@ def shard_cleanup(spec, ctx):
                 os.utime(p, (now - age, now - written))
                 files[p] = (age, p.read_bytes())
                 ctx.count('cleanup_saw_%s_entries' % state)
+            # the cache root is shared by all interpreters, one version directory each: a young entry of another interpreter is in use
+            odir = env.cd / rng.choice(['CPython-311-33', 'CPython-38-33', 'PyPy-310-33', 'CPython-313-34'])
+            odir.mkdir(exist_ok=True)
+            oentry = odir / ('%064x-%064x.pkl' % (rng.getrandbits(200), rng.getrandbits(200)))
+            oentry.write_bytes(b'entry of another interpreter')
+            os.utime(oentry, (now - 60, now - 3600))
             other = env.cd / 'not-a-version-dir.txt'
             other.write_bytes(b'keep me')
             os.utime(other, (now - 400 * 86400,) * 2)
@@ -512,6 +518,10 @@ def shard_cleanup(spec, ctx):
             if not inprog.exists() or inprog.read_bytes() != payload:
                 ctx.violation('entry_in_use_removed', 'an entry another process was saving while the clean-up ran (file open, still empty) is gone afterwards',
                               wit, age_days=0, in_progress=True)
+            ctx.count('other_interpreter_entries_checked')
+            if not oentry.exists() or oentry.read_bytes() != b'entry of another interpreter':
+                ctx.violation('entry_in_use_removed', "a young entry in another interpreter's version directory (%s) was removed by the clean-up" % odir.name,
+                              wit, age_days=60 / 86400, other_interpreter=True)
             if not other.exists():
                 ctx.violation('non_cache_file_removed', 'a file outside the version directories was removed', wit)
             if not env.pickle_path().exists():
